@@ -1,4 +1,7 @@
-use crate::{common::BinaryOp, syn_utils::expand_self};
+use crate::{
+    common::BinaryOp,
+    syn_utils::{expand_self, expand_self_in_impl_generics},
+};
 use proc_macro2::{Span, TokenStream};
 use quote::quote;
 use std::fmt::Display;
@@ -128,7 +131,7 @@ pub fn build_by_item_impl(attr: TokenStream, item_impl: &ItemImpl) -> Result<Tok
     let (this, this_is_ref) = to_ref_elem(this_orig);
     let rhs_orig = to_rhs(s, this_orig);
     let (rhs, rhs_is_ref) = to_ref_elem(&rhs_orig);
-    let g = expand_self(&item_impl.generics, this_orig);
+    let g = expand_self_in_impl_generics(&item_impl.generics, this_orig);
     let (impl_g, _, where_g) = &g.split_for_impl();
 
     let op = Op::from_ident(&s.ident)?;
